@@ -2195,7 +2195,7 @@ RULE = ("op=run: one case = (branch list, flow, copy_buf) run under EVERY bufsiz
         "nested Splits of any inner mix (run once per block when they have no common fill type), bufsize arguments "
         "that are not int; op=methods / zip (incl. a second compute()/request() of the same Zip): random common-type "
         "and mixed branch lists; op=zipctx: Zip over canned results with random contexts over {a,b,zip}, fields as "
-        "list/str/none of every length, reset(); op=init: every capability subset as a single argument, tuples over "
+        "list/str/none of every length, reset(); op=realfc (oracle only): common-type Splits of real lena accumulators (Count, Sum, Mean, StoreFilled) and of harness elements that change / keep the value objects they are filled with, on (data, context) values: with copy_buf=True fill-all-then-compute (block-wise fill then request) == run(flow) == the same Split nested in another one == the branches driven alone on their own copies; op=init: every capability subset as a single argument, tuples over "
         "16 representative capability sets, pairs, random lists, check_sequence_type predicates called directly; "
         "corpus/C03: regression cases. "
         "Non-trivial: >= 2 branches and a non-empty output (run), a non-empty result or an exception (others).")
